@@ -14,6 +14,7 @@ HOLDS, VIOLATION, UNDECIDED = 'HOLDS', 'VIOLATION', 'UNDECIDED'
 
 # rules whose violations are positive evidence whatever else the function does (a store into a
 # shared object is a store): never downgraded by the closed-world gate
+CACHE_RULES = ('R10-atomic', 'R10-race', 'R10-validate', 'R10-hash', 'R10-cookie', 'R10-bytecode', 'R10-tolerant', 'R10-load', 'R4-generated-code-is-current')
 WITNESS_RULES = {'R5-runtime-stateless', 'R5-no-compile-at-runtime', 'R5-fixture'}
 
 
@@ -62,6 +63,11 @@ class Ctx:
             # every construct the analysis resolves
             fi = where if hasattr(where, 'node') else self.repo.func_by_where(file, function)
             feats = self.repo.opaque_features(fi) if fi is not None else []
+            if not feats and file == 'bisturi/codegen.py' and not rule.startswith(CACHE_RULES):
+                # the rules about the generated text read it through the %-templates of codegen.py
+                shape = self.repo.codegen_shape()
+                if shape:
+                    feats = ['the generated text is not (only) built from the templates the rules read: ' + shape]
             if feats:
                 verdict = UNDECIDED
                 ok = None
